@@ -167,4 +167,98 @@ theorem C16_count (word : Nat → Option Str) (fuel seed n : Nat) (hn : 1 ≤ n)
 /-- non-vacuity: weights 1,2,1 and draw 3 select index 1 (running sums 1,3,4) -/
 example : pick ⟨0, (· + ·), fun a b => decide (a ≥ b)⟩ [1, 2, 1] (3 : Int) = some 1 := by decide
 
+
+def intOps : SOps Int := ⟨0, (· + ·), fun a b => decide (a ≥ b)⟩
+
+theorem foldl_add_int (l : List Nat) (c : Int) :
+    (l.map (fun n : Nat => (n : Int))).foldl (· + ·) c = c + (l.sum : Nat) := by
+  induction l generalizing c with
+  | nil => simp
+  | cons a l ih => simp only [List.map_cons, List.foldl_cons, List.sum_cons]; rw [ih]; omega
+
+theorem runSum_int (ws : List Nat) (k : Nat) :
+    runSum intOps (ws.map (fun n : Nat => (n : Int))) k = ((ws.take k).sum : Nat) := by
+  unfold runSum intOps
+  simp only
+  rw [← List.map_take, foldl_add_int]; simp
+
+theorem sum_take_mono (ws : List Nat) {a b : Nat} (h : a ≤ b) : (ws.take a).sum ≤ (ws.take b).sum := by
+  induction ws generalizing a b with
+  | nil => simp
+  | cons w ws ih =>
+    cases a with
+    | zero => simp
+    | succ a =>
+      cases b with
+      | zero => omega
+      | succ b => simp only [List.take_succ_cons, List.sum_cons]; have := ih (a := a) (b := b) (by omega); omega
+
+theorem sum_take_le (ws : List Nat) (a : Nat) : (ws.take a).sum ≤ ws.sum := by
+  have h := congrArg List.sum (List.take_append_drop a ws)
+  rw [List.sum_append] at h
+  omega
+
+/-- number of grid points in a half-open interval -/
+theorem count_range (T a b : Nat) (hab : a ≤ b) (hb : b ≤ T) :
+    ((List.range T).filter (fun k => decide (a ≤ k ∧ k < b))).length = b - a := by
+  induction T generalizing b with
+  | zero => simp; omega
+  | succ T ih =>
+    rw [List.range_succ, List.filter_append, List.length_append]
+    by_cases hbT : b ≤ T
+    · rw [ih b hab hbT]
+      have : ¬ (a ≤ T ∧ T < b) := by omega
+      simp [this]
+    · have hbe : b = T + 1 := by omega
+      subst hbe
+      by_cases haT : a ≤ T
+      · have h1 : ((List.range T).filter (fun k => decide (a ≤ k ∧ k < T + 1))) =
+            ((List.range T).filter (fun k => decide (a ≤ k ∧ k < T))) := by
+          apply List.filter_congr
+          intro k hk
+          have := List.mem_range.mp hk
+          simp only [decide_eq_decide]; omega
+        rw [h1, ih T haT (Nat.le_refl T)]
+        simp [haT]; omega
+      · have ha : a = T + 1 := by omega
+        subst ha
+        have : ∀ k ∈ List.range T, ¬ (T + 1 ≤ k ∧ k < T + 1) := by intro k _; omega
+        simp [List.filter_eq_nil_iff]
+
+/-- **the step that was on paper, as a theorem about counting measure.**  Weights are integer counts
+`ws` (probabilities over the common denominator `T = Σ ws`, which is how the trainer produces them);
+let the draw run over the `T` equally spaced points `1/T, 2/T, …, 1` of the unit interval (scaled by `T`).
+Exactly `ws[j]` of these `T` draws select index `j`: under a uniform draw index `j` is chosen with
+probability exactly `ws[j] / T`.  Replacing `ws` by `ws.map (M * ·)` gives the same on every finer grid. -/
+theorem C16_uniform_count (ws : List Nat) (j : Nat) (hj : j < ws.length) :
+    ((List.range ws.sum).filter
+        (fun k : Nat => pick intOps (ws.map (fun n : Nat => (n : Int))) ((k : Int) + 1) == some j)).length = ws[j] := by
+  have hpred : ∀ k : Nat, (pick intOps (ws.map (fun n : Nat => (n : Int))) ((k : Int) + 1) == some j)
+      = decide ((ws.take j).sum ≤ k ∧ k < (ws.take (j + 1)).sum) := by
+    intro k
+    rw [Bool.eq_iff_iff]
+    simp only [beq_iff_eq, decide_eq_true_eq]
+    rw [C16_pick]
+    simp only [List.length_map, runSum_int]
+    simp only [intOps, decide_eq_true_eq, decide_eq_false_iff_not]
+    constructor
+    · rintro ⟨_, h1, h2⟩
+      refine ⟨?_, by omega⟩
+      cases j with
+      | zero => simp
+      | succ j => have := h2 j (by omega); omega
+    · rintro ⟨h1, h2⟩
+      refine ⟨hj, by omega, ?_⟩
+      intro m hm
+      have := sum_take_mono ws (a := m + 1) (b := j) (by omega)
+      omega
+  simp only [hpred]
+  rw [count_range _ _ _ (sum_take_mono ws (by omega)) (sum_take_le ws _)]
+  rw [List.take_succ_eq_append_getElem hj, List.sum_append]
+  simp
+
+/-- non-vacuity / illustration: counts 1, 2, 1 → of the four draws 1/4 … 4/4 exactly two select index 1 -/
+example : ((List.range 4).filter (fun k : Nat => pick intOps [1, 2, 1] ((k : Int) + 1) == some 1)).length = 2 := by
+  decide
+
 end Pcfg.C16
